@@ -113,6 +113,14 @@ Theorem C03_heapq_root_is_least :
     heap_inv (ev_lt A) h -> nth_error h 0 = Some r -> forall e, In e h -> ev_lt A e r = false.
 Proof. intros F A OL P. apply (heap_root_is_least A OL). Qed.
 
+(** pushing an event keeps the heap condition (CPython's [_siftdown] from the last cell), for every
+    array and every event; with [C02_heapq_push_conserves] the array after a push is a heap of
+    exactly the old events and the new one *)
+Theorem C03_heapq_push_keeps_heap_condition :
+  forall (F : Type) (A : ArithOps F), OrderLaws A -> forall (P : Type) (h : list (event F P)) (e : event F P),
+    heap_inv (ev_lt A) h -> heap_inv (ev_lt A) (heappush (ev_lt A) h e).
+Proof. intros F A OL P. apply (heappush_keeps_heap A OL). Qed.
+
 (** six same-instant events and two earlier ones pushed through the transcribed heap: the heap
     condition holds after every push and the pops come out by time, ties in request order *)
 Example C03_heapq_example :
@@ -144,3 +152,4 @@ Print Assumptions C03_requests_numbered_in_order.
 Print Assumptions C03_fixed_delay_is_monotone.
 Print Assumptions C03_heapq_pop_is_the_selected_event.
 Print Assumptions C03_heapq_root_is_least.
+Print Assumptions C03_heapq_push_keeps_heap_condition.
